@@ -411,17 +411,25 @@ func c16Timeout(w *World, r *Report) {
 			r.Hold("R16.4", key, pos, "NewClientConnection arms a deadline/timer before its first blocking read")
 			continue
 		}
-		covered := true
+		covered := false
 		n := 0
-		enumPaths(cs.Fn, nil, isTimeout, func(in ssa.Instruction) bool { return in == ssa.Instruction(cs.Call) }, func(e pathExit) {
-			if e.Stop == nil {
-				return
+		for _, fr := range cs.Frames {
+			stopAt, _ := fr.Call.(ssa.Instruction)
+			cov, nf := true, 0
+			enumPaths(fr.Fn, nil, isTimeout, func(in ssa.Instruction) bool { return in == stopAt }, func(e pathExit) {
+				if e.Stop == nil {
+					return
+				}
+				nf++
+				if len(e.State.Events) == 0 {
+					cov = false
+				}
+			})
+			n += nf
+			if cov && nf > 0 {
+				covered = true // armed in this frame on every path before the handshake (helper) is entered
 			}
-			n++
-			if len(e.State.Events) == 0 {
-				covered = false
-			}
-		})
+		}
 		r.Check(covered && n > 0, "R16.4", key, pos, "a deadline or timer is armed on every path before the handshake",
 			"no deadline or timer precedes the blocking client handshake: a server that accepts and never answers blocks Connect forever while the upstream mutex is held, so no later upstream is tried and every later local connection blocks too")
 	}
